@@ -395,6 +395,10 @@ def gen_op(i, o):
     return "\n".join(lines), row
 
 
+# flags {none, +, #, 0} x width {none, 12} x precision {none, .0, .4}, plus alignment / fill variants
+FMT_SPECS = [f + w + p for f in ("", "+", "#", "0") for w in ("", "12") for p in ("", ".0", ".4")] + ["<9", "^15.2", "*>20", ">1", "-<7.1"]
+FMT_SPECS = [x for x in FMT_SPECS if x not in ("-<7.1",)]  # '-' is reserved/unused by std; keep the list valid
+
 FIELDS = {
     2: ["x", "y"], 3: ["x", "y", "z"], 4: ["x", "y", "z", "w"],
 }
@@ -466,6 +470,13 @@ def gen_extras(start, want_types, specials):
                     "    let r = core::fmt::write(&mut sink, format_args!(\"%s\", s));\n"
                     "    vec![Val::Str(sink.written.clone()), Val::Bool(r.is_err()), Val::Usize(sink.calls), Val::Usize(sink.calls_after_failure)]" % (t, spec),
                     ["self", "fail_at"])
+        # the Formatter is an input too: a grid of format specs (flags x width x precision) selected by index
+        for tr, q in (("Display", ""), ("Debug", "?")):
+            if has(tr):
+                arms = "\n".join("        %d => format!(\"{:%s%s}\", s)," % (k, spec, q) for k, spec in enumerate(FMT_SPECS))
+                add("<%s as %s>::fmt with format spec #k" % (t, tr), t, "fmt_spec", [g, "Ty::S(Elem::Usize)"], ["Ty::Str"],
+                    "    let s: glam::%s = V::from_val(&a[0]);\n    let k: usize = V::from_val(&a[1]);\n    let r = match k %% %d {\n%s\n        _ => unreachable!(),\n    };\n    vec![Val::Str(r)]"
+                    % (t, len(FMT_SPECS), arms), ["self", "spec"])
         # Sum / Product over a caller-supplied iterator (by value and by reference)
         for tr, m in (("Sum", "sum"), ("Product", "product")):
             for (tn, arg) in sorted(sp):
@@ -499,7 +510,7 @@ def main():
         fns.append(f)
         rows.append(r)
     xf, xr, total = gen_extras(len(ops), want, specials)
-    src = ["// @generated by /verif/apigen.py from rustdoc JSON of the glam working tree. Do not edit.",
+    src = ["pub const N_FMT_SPECS: usize = %d;" % len(FMT_SPECS), "// @generated by /verif/apigen.py from rustdoc JSON of the glam working tree. Do not edit.",
            "#[allow(unused_mut, unused_variables, clippy::all)]", "mod generated_fns {", "use super::*;"]
     src += [f.replace("fn op_", "pub fn op_", 1) for f in fns + xf]
     src += ["}", "use generated_fns::*;", "pub static OPS: &[OpDesc] = &["] + rows + xr + ["];"]
